@@ -272,7 +272,7 @@ def run_property(modname, tier, seed, nproc=None, only=None, verbose=False):
     harness_errors = []
     tot = dict(paths=0, decisions=0, forced=0, branch_queries=0, assert_queries=0, model_queries=0,
                obligations=0, discharged=0, solver_s=0.0, unknown=0, timeouts=0, dead=0,
-               unexplored=0, nonlinear_ops=0, fallback_queries=0)
+               unexplored=0, nonlinear_ops=0, fallback_queries=0, model_rechecks=0, engine_restarts=0)
     reached, covers, flags = {}, {}, {}
     functions = set()
     exhaustive = True
@@ -292,7 +292,7 @@ def run_property(modname, tier, seed, nproc=None, only=None, verbose=False):
         tot['paths'] += r['paths']
         tot['dead'] += r['dead_paths']
         for k in ('decisions', 'forced', 'branch_queries', 'assert_queries', 'model_queries',
-                  'obligations', 'discharged', 'unknown', 'timeouts', 'nonlinear_ops', 'fallback_queries'):
+                  'obligations', 'discharged', 'unknown', 'timeouts', 'nonlinear_ops', 'fallback_queries', 'model_rechecks', 'engine_restarts'):
             tot[k] += st[k]
         tot['solver_s'] += st['solver_s']
         tot['unexplored'] += r['unexplored_prefixes']
@@ -360,6 +360,9 @@ def run_property(modname, tier, seed, nproc=None, only=None, verbose=False):
         if cr.get('error') and 'escaped' in str(cr.get('error')):
             got.append('harness-escape')
         common = [l for l in labels if l in got]
+        if any(f.startswith(('assume-violated', 'diverged')) for f in cr.get('flags', [])):
+            # inputs outside the harness's stated assumptions are never a counterexample
+            common = []
         if not common:
             if it['cfg'].get('float_inexact') and not cr.get('error'):
                 skipped_float += 1
@@ -442,7 +445,9 @@ def run_property(modname, tier, seed, nproc=None, only=None, verbose=False):
             'jobs': len(jobs), 'jobs_skipped_for_budget': skipped_jobs,
             'queries': {'branch_feasibility': tot['branch_queries'], 'assertion': tot['assert_queries'],
                         'model_refresh': tot['model_queries'],
-                        'non_incremental_fallback': tot['fallback_queries']},
+                        'non_incremental_fallback': tot['fallback_queries'],
+                        'counterexample_models_rechecked': tot['model_rechecks'],
+                        'engine_restarts_after_solver_timeout': tot['engine_restarts']},
             'forced_branches': tot['forced'],
             'solver_s': round(tot['solver_s'], 2),
             'inconclusive_paths': inconclusive,
